@@ -457,10 +457,23 @@ def loop_obligations(world, prop):
                 if base in accs or base in tnames:
                     continue
                 carried.add(r)
+        # in-place writes (through any alias / view) inside the loop to an object allocated before
+        # the loop: the next iteration sees the modified object
+        iter_names = {x.id for x in ast.walk(node.iter) if isinstance(x, ast.Name)}
+        for site, wline, desc in getattr(fi, 'local_writes', []):
+            elem = site.endswith('/')
+            name, aline = site.rstrip('/')[2:].split('@')
+            if name in iter_names:
+                continue      # the iteration's own element of the iterated container
+            if node.lineno <= wline <= node.end_lineno and int(aline) < node.lineno \
+                    and name not in accs:
+                carried.add(f'{name} (allocated at line {aline}, written in place at line '
+                            f'{wline}: {desc.split(" @")[0]})')
         fhash = src_hash(ast.dump(fi.node))
         text = (f'iterations of the per-source loop in {qual} are independent: nothing an '
-                f'iteration reads before writing it is written by the loop body (declared '
-                f'accumulators {sorted(accs)})')
+                f'iteration reads before writing it is written by the loop body, and no object '
+                f'created before the loop is modified in place (declared accumulators '
+                f'{sorted(accs)})')
         if carried:
             obs.append(Obligation(oid, prop, 'effects', REFUTED, backend='effects',
                                   functions=[f'{fi.target}#{fhash}'], text=text,
